@@ -278,7 +278,7 @@ def gen_case(rng):
 
 
 def plan(tier, seed, n):
-    per = 200 if tier == 'quick' else 8000
+    per = 500 if tier == 'quick' else 25000
     return [{'n': per} for _ in range(n)]
 
 
